@@ -1256,6 +1256,75 @@ func init() {
 					}
 				}
 			}
+			// TWO '+' entries of the family that differ in their exception (an index that keeps one '+' entry per family), and
+			// LONG lists (> 8 entries: other search strategies) that hold the deciding entry among look-alikes and unrelated ids
+			if rng.Intn(scale(4, 1)) == 0 && implValid(a+"+") {
+				e := genException()
+				fam := sameFamilyIDs(a)
+				wantP := implMatch(b, a+"+") == 1
+				for _, l := range [][]string{{a + "+ WITH " + e, a + "+"}, {a + "+", a + "+ WITH " + e}} {
+					r := implSat(b, l)
+					res.Evaluations++
+					count("two_plus_entries")
+					if r.err != nil || r.panicv != nil || r.ok != wantP {
+						fail(failure{Stream: "oracle", What: "two '+' entries of one family that differ in their exception: " + what, Case: &kase{Expr: b, ExprHex: hx(b), Allowed: l}, Impl: r.String(), Expected: fmt.Sprint(wantP)})
+					}
+				}
+				if len(fam) > 0 {
+					lower := pick(fam)
+					if !strings.HasSuffix(lower, "+") && !strings.HasSuffix(lower, "-or-later") && implValid(lower+"+ WITH "+e) {
+						wantQ := implMatch(b, a+"+") == 1 || implMatch(b, lower+"+ WITH "+e) == 1
+						l := []string{lower + "+ WITH " + e, a + "+"}
+						if r := implSat(b, l); r.err != nil || r.panicv != nil || r.ok != wantQ {
+							fail(failure{Stream: "oracle", What: "two '+' entries of one family that differ in their exception: " + what, Case: &kase{Expr: b, ExprHex: hx(b), Allowed: l}, Impl: r.String(), Expected: fmt.Sprint(wantQ)})
+						}
+					}
+				}
+				long := []string{a + "+"}
+				for _, x := range append(append([]string{}, tblActive...), tblDeprecated...) {
+					if len(long) >= 12 {
+						break
+					}
+					st := strings.TrimSuffix(strings.TrimSuffix(strings.TrimSuffix(b, "+"), "-only"), "-or-later")
+					if x != a && x != b && !strings.HasSuffix(x, "+") && (strings.HasPrefix(x, st) || x > a && x < b || x > b && x < a) && implMatch(b, x) == 0 {
+						long = append(long, x)
+					}
+				}
+				for _, d := range []string{"0BSD", "AAL", "Zlib", "curl", "ISC", "xpp", "Zed", "NTP", "Vim"} {
+					if len(long) < 12 && d != a && d != b && implMatch(b, d) == 0 && implMatch(a+"+", d) == 0 {
+						long = append(long, d)
+					}
+				}
+				for rep := 0; rep < 2; rep++ {
+					rng.Shuffle(len(long), func(i, j int) { long[i], long[j] = long[j], long[i] })
+					r := implSat(b, long)
+					res.Evaluations++
+					count("long_lists_with_lookalikes")
+					if r.err != nil || r.panicv != nil || r.ok != wantP {
+						fail(failure{Stream: "oracle", What: what + " (the deciding '+' entry in a list of 12 among look-alikes and unrelated ids)", Case: &kase{Expr: b, ExprHex: hx(b), Allowed: append([]string{}, long...)}, Impl: r.String(), Expected: fmt.Sprint(wantP)})
+						break
+					}
+					// and on the expression side
+					_, va9 := versionOf(a)
+					_, vb9 := versionOf(b)
+					fa9, _ := versionOf(a)
+					fb9, _ := versionOf(b)
+					want9 := fa9 == fb9 && va9.ok && vb9.ok && cmpVersion(va9, vb9) <= 0 || a == b
+					l2 := []string{b}
+					for _, x := range long {
+						if x == a+"+" || implMatch(a+"+", x) != 0 { // only entries that `a+` does not reach on their own
+							l2 = append(l2, "LicenseRef-filler-"+itoa(len(l2)))
+						} else {
+							l2 = append(l2, x)
+						}
+					}
+					rng.Shuffle(len(l2), func(i, j int) { l2[i], l2[j] = l2[j], l2[i] })
+					if r2 := implSat(a+"+", l2); r2.err != nil || r2.panicv != nil || r2.ok != want9 {
+						fail(failure{Stream: "oracle", What: "'+' on the expression side against a list of 12 among look-alikes and unrelated ids: " + what, Case: &kase{Expr: a + "+", ExprHex: hx(a + "+"), Allowed: l2}, Impl: r2.String(), Expected: fmt.Sprint(want9)})
+						break
+					}
+				}
+			}
 			// the '+' term inside a longer alternative beside the bare id alone (rows compared or pruned by string prefix):
 			// X-v1 OR (X-v1+ AND Zlib) against [X-v2, Zlib]
 			if rng.Intn(scale(3, 1)) == 0 && a != "Zlib" && b != "Zlib" && implMatch("Zlib", b) == 0 {
